@@ -92,6 +92,26 @@ def query_mix(ev, N, m, lo, up, tag):
                     break
             if msgs:
                 return msgs
+    # what the caller got back is the caller's: written over in place, or handed back as the argument of an inverse query,
+    # it must not change what the object answers next (and must not be changed by later calls)
+    for x in (0.0, 1.0, 0.5 / n, (n // 2 + 0.3) / n):
+        y = ev.GetImage(x)
+        want = y.copy()
+        ev.GetInverseImage(y)
+        ev.GetPreimages(y)
+        ev.GetImage((n // 3 + 0.5) / n)
+        ev.GetImage(x)
+        if not np.array_equal(y, want):
+            msgs.append(f"{tag}: the array returned by GetImage({x!r}) changed after it had been handed to the inverse queries "
+                        f"and GetImage was called again ({want.tolist()} -> {y.tolist()})")
+            return msgs
+        if y.flags.writeable:
+            y[...] = 777.0
+        again = ev.GetImage(x)
+        if not np.array_equal(again, want):
+            msgs.append(f"{tag}: after the caller overwrote the array GetImage({x!r}) had returned, GetImage({x!r}) gives "
+                        f"{again.tolist()} instead of {want.tolist()}")
+            return msgs
     if N >= 2 and np.array_equal(lo_f, -up_f):
         # a box symmetric about the origin: a coordinate given as -0.0 is the same point as +0.0
         for ax in range(N):
